@@ -76,5 +76,5 @@ def lines_leg(ctx, parent, corr_broken):
                     "are not a line of any file (Lean: Props.C19Lines.fin_owns_line_full_false; with fix F47 fin_owns_line_fixed)" % missing)
         ctx.violation(key, what, replay)
     ctx.corr["lines"] = rows
-    if len(rows) < 6:
-        corr_broken.append("lines leg: only %d of 6 scenarios reported" % len(rows))
+    if len(rows) < 7:
+        corr_broken.append("lines leg: only %d of 7 scenarios reported" % len(rows))
